@@ -130,3 +130,15 @@ Proof.
   destruct (lookup m o) as [[v|sd|t]|] eqn:E; try exact IH. cbn [map lookup fst snd].
   destruct (String.eqb n m) eqn:E2; [|exact IH]. apply String.eqb_eq in E2. subst. now rewrite E.
 Qed.
+
+(* ---------- extension: set_parameters with a partial dictionary (exact_match=False) ---------- *)
+Fixpoint lookup_param (n : string) (p : list (string * Z)) : option Z :=
+  match p with [] => None | (m, sd) :: r => if String.eqb n m then Some sd else lookup_param n r end.
+
+Lemma set_parameters_partial o p n :
+  lookup n (set_parameters o p) = match lookup_param n p with Some sd => Some (AModule sd) | None => lookup n o end.
+Proof.
+  unfold set_parameters, update. rewrite lookup_app.
+  induction p as [|[m sd] p IH]; [reflexivity|]. cbn [map lookup lookup_param fst snd].
+  destruct (String.eqb n m); [reflexivity|exact IH].
+Qed.
